@@ -35,7 +35,8 @@ Record GE (E : nat -> nat -> Prop) (s : st) (hs : list handle) (al : list (nat *
   g_al_nodup : NoDup (map fst al);
   g_alive : forall k key, In (k, key) al -> k < length hs /\ live_at s (hnd hs k) key;
   g_dead : forall k, k < length hs -> ~ alive al k -> ~ pend rem k -> dead_at s (hnd hs k);
-  g_pend : forall k, pend rem k -> k < length hs /\ ~ alive al k /\ snd (hnd hs k) = 0%N /\ pend_at s (hnd hs k);
+  g_pend : forall k, pend rem k -> k < length hs /\ ~ alive al k /\ snd (hnd hs k) = 0%N /\ pend_at s (hnd hs k) /\
+           (forall k', k' < length hs -> k' <> k -> fst (hnd hs k') <> fst (hnd hs k));
   g_slots : forall i, i < length (slots s) ->
             In (N.of_nat i) (W s) \/ (exists k key, In (k, key) al /\ fst (hnd hs k) = N.of_nat i) \/ gap s i;
   g_arch_keys : NoDup (map a_key (archs s));
@@ -88,7 +89,7 @@ Proof.
     destruct (nth_error (slots s) (N.to_nat i)) as [sl|] eqn:Es; [|discriminate]. apply N.eqb_eq in H.
     (* not alive: dead (slot version larger) or pending (beyond the table or a gap) *)
     destruct (pend_dec rem k) as [Hp|Hp].
-    + destruct (g_pend HG k Hp) as (_ & _ & Hz & [Hlen|(Hgap & _)]); rewrite Eh in *; simpl in *.
+    + destruct (g_pend HG k Hp) as (_ & _ & Hz & [Hlen|(Hgap & _)] & _); rewrite Eh in *; simpl in *.
       * assert (N.to_nat i < length (slots s)) by (apply nth_error_Some; congruence). lia.
       * rewrite Es in Hgap. inversion Hgap; subst sl. simpl in H. unfold NULL_VER in *. lia.
     + destruct (g_dead HG k Hk Hn Hp) as (sl' & Es' & Hlt). rewrite Eh in *. simpl in *. rewrite Es in Es'. inversion Es'; subst. lia.
@@ -224,7 +225,8 @@ Proof.
         eexists. rewrite nth_error_upd_same by assumption. split; [reflexivity|]. simpl. lia.
       * exists sl. rewrite nth_error_upd_other by assumption. auto.
   - (* pending *)
-    intros k' Hp. destruct (g_pend HG k' Hp) as (A & B & C & D). split; [assumption|]. split; [intros Ha; apply kill_alive in Ha; tauto|]. split; [assumption|].
+    intros k' Hp. destruct (g_pend HG k' Hp) as (A & B & C & D & U). split; [assumption|]. split; [intros Ha; apply kill_alive in Ha; tauto|]. split; [assumption|].
+    split; [|assumption].
     unfold pend_at, gap in *. rewrite Eslots, upd_length, EW. destruct D as [D|(D1 & D2)]; [left; assumption|right].
     assert (Hne : N.to_nat (fst (hnd hs k')) <> N.to_nat i).
     { intros E. rewrite E in D1. rewrite Hslot in D1. inversion D1 as [[E1 E2]]. unfold NULL_VER in *. lia. }
@@ -489,7 +491,8 @@ Proof.
         eexists. rewrite nth_error_upd_same by assumption. split; [reflexivity|]. simpl. lia.
       * exists sl. rewrite nth_error_upd_other by assumption. auto.
   - (* pending *)
-    intros k' Hp. destruct (g_pend HG k' Hp) as (A & B & C & D). split; [assumption|]. split; [intros Ha; apply kill_alive in Ha; tauto|]. split; [assumption|].
+    intros k' Hp. destruct (g_pend HG k' Hp) as (A & B & C & D & U). split; [assumption|]. split; [intros Ha; apply kill_alive in Ha; tauto|]. split; [assumption|].
+    split; [|assumption].
     unfold pend_at, gap in *. rewrite Eslots, upd_length, EW. destruct D as [D|(D1 & D2)]; [left; assumption|right].
     assert (Hne : N.to_nat (fst (hnd hs k')) <> N.to_nat i).
     { intros E. rewrite E in D1. rewrite Hslot in D1. inversion D1 as [[E1 E2]]. unfold NULL_VER in *. lia. }
